@@ -183,7 +183,7 @@ fn check_adopt_constraint(op: &Op, pre: &Model, post: &Model, ret: Option<Lid>) 
     let d = delta(pre, post);
     let in_sub = |root: Lid, l: Lid| pre.nodes.contains_key(&l) && pre.is_ancestor_or_self(root, l);
     match op {
-        Op::Parse { .. } | Op::CloneWithPrefixes { .. } => {
+        Op::Parse { .. } | Op::Xotify { .. } | Op::CloneWithPrefixes { .. } => {
             if !d.died.is_empty() || !d.changed.is_empty() {
                 return Err(foreign(format!(
                     "{} changed existing nodes: died {:?}, changed {:?}",
@@ -196,6 +196,23 @@ fn check_adopt_constraint(op: &Op, pre: &Model, post: &Model, ret: Option<Lid>) 
                 for c in &d.created {
                     if post.root_of(*c) != r {
                         return Err(foreign(format!("{} created node {:?} outside the returned tree", op.name(), c)));
+                    }
+                }
+            }
+            // clone_with_prefixes adds exactly one copy: the source's nodes in document order, the
+            // element's own declarations first and unchanged, further declarations only on the top element
+            if let (Op::CloneWithPrefixes { n }, Some(r)) = (op, ret) {
+                let adjacent = pre.subtree(*n).iter().any(|l| pre.n(*l).kids.windows(2).any(|w| pre.is_text(w[0]) && pre.is_text(w[1])));
+                let own: Vec<Kind> = pre.n(*n).ns.iter().map(|l| pre.n(*l).kind.clone()).collect();
+                let got: Vec<Kind> = post.n(r).ns.iter().map(|l| post.n(*l).kind.clone()).collect();
+                if pre.k(*n) == K::Elem && (got.len() < own.len() || got[..own.len()] != own[..]) {
+                    return Err(Violation::new("C05", "clone-not-a-copy", format!("clone_with_prefixes({:?}) changed the element's own declarations: {:?} became {:?}", n, own, got)));
+                }
+                if !adjacent {
+                    let src: Vec<Kind> = pre.subtree(*n).iter().filter(|l| !(pre.k(**l) == K::Ns && pre.n(**l).parent == Some(*n))).map(|l| pre.n(*l).kind.clone()).collect();
+                    let cl: Vec<Kind> = post.subtree(r).iter().filter(|l| !(post.k(**l) == K::Ns && post.n(**l).parent == Some(r))).map(|l| post.n(*l).kind.clone()).collect();
+                    if src != cl {
+                        return Err(Violation::new("C05", "clone-not-a-copy", format!("clone_with_prefixes({:?}) is not a copy of its source", n)));
                     }
                 }
             }
